@@ -330,6 +330,22 @@ def must_raise(cfg):
     ncases += 1
     if r is not None:
         msgs.append(f"unmodified checkpoint failed to load: {r}")
+    if cfg.get("groups") and len(cfg["groups"]) == 2:
+        # same number of groups, same first parameter of every group, but one parameter moved to the other group
+        g0, g1 = cfg["groups"]
+        if len(g0["params"]) >= 2:
+            moved = g0["params"][-1]
+            cfg2 = dict(cfg, groups=[dict(g0, params=g0["params"][:-1]), dict(g1, params=g1["params"] + [moved])])
+            p2 = [torch.nn.Parameter(v.clone()) for v in pv]
+            _, o2 = seq.build(cfg2, params=p2)
+            try:
+                o2.load_distributed_state_dict(load_bytes(blob), key_to_param=iter(names(p2)))
+                rr = None
+            except Exception as e:
+                rr = type(e).__name__
+            ncases += 1
+            if rr != "ValueError":
+                msgs.append(f"checkpoint of groups {[g['params'] for g in cfg['groups']]} loaded into groups {[g['params'] for g in cfg2['groups']]} -> {rr}, expected ValueError")
     return msgs, ncases, obs
 
 
@@ -371,7 +387,9 @@ def ddp_program(cfg, hist, g, comm, cp):
                 d = diff_digest(digs[j + 1], full_digest(o2, p2))
                 if d and not msgs:
                     msgs.append(f"rank {rank} stop {k}, after event {j} {hist[j]}: {d} (resumed DDP run vs uninterrupted run)")
-        return {"msgs": msgs, "digs": [common.h64(json.dumps(x, sort_keys=True)) for x in digs]}
+        sd = opt.distributed_state_dict(key_to_param=iter(names(params)))
+        blocks = {pk: sorted({json.loads(fk)[0] for fk in st if json.loads(fk)[0] != "step"}) for pk, st in sd["state"].items()}
+        return {"msgs": msgs, "digs": [common.h64(json.dumps(x, sort_keys=True)) for x in digs], "blocks": blocks}
 
     return fn
 
@@ -390,6 +408,21 @@ def check_ddp(cfg, hist, W, g, comm, cp):
     if not msgs:
         for r in range(W):
             msgs += [f"{what}: {m}" for m in s.results[r]["msgs"][:1]]
+        # keys unique per parameter and block ACROSS the ranks of a group (a consolidated checkpoint keeps one tensor per key)
+        _, sopt = seq.build(cfg)
+        for grp in range(W // g):
+            ranks = list(range(grp * g, (grp + 1) * g))
+            for pi, p in enumerate(sopt.param_groups[0]["params"] if not cfg.get("groups") else [q for G in sopt.param_groups for q in G["params"]]):
+                pk = f"p{pi}"
+                nblocks = len([k for k in sopt.state[p] if k != "step"])
+                seen = {}
+                for r in ranks:
+                    for b in s.results[r]["blocks"].get(pk, []):
+                        if b in seen:
+                            msgs.append(f"{what}: state key '{b}' of parameter {pk} is written by rank {seen[b]} and by rank {r} (keys must be unique per parameter and block)")
+                        seen[b] = r
+                if not msgs and len(seen) != nblocks:
+                    msgs.append(f"{what}: group {grp} saves {len(seen)} distinct block keys for parameter {pk}, which has {nblocks} blocks")
     digs = [d for r in range(W) if s.results[r] for d in s.results[r]["digs"]]
     return msgs[:3], digs, len(s.points)
 
